@@ -23,7 +23,7 @@ pub const ASSUMPTIONS: &[&str] = &[
 
 const CAPS: [Option<usize>; 9] = [None, Some(0), Some(1), Some(2), Some(7), Some(8), Some(15), Some(16), Some(17)];
 
-fn small_doc(seed: u64, k: u64, max_len: usize) -> (SpecChoice, Vec<u8>, String) {
+pub fn small_doc(seed: u64, k: u64, max_len: usize) -> (SpecChoice, Vec<u8>, String) {
     // deterministic small inputs: tape from the proptest RNG seeded by (seed, k); regenerate with j until short enough
     let mut j = 0u64;
     loop {
